@@ -62,8 +62,10 @@ build_harness () { # tree cflags
   done
 }
 
-ASAN_FLAGS="-fsanitize=address,undefined -fno-sanitize-recover=undefined"
-TSAN_FLAGS="-fsanitize=thread"
+# VERIF_ASAN_FLAGS / VERIF_TSAN_FLAGS replace the sanitizer flags (tools/coverage.sh builds a gcov tree that way,
+# in a scratch VERIF_BUILD_ROOT, to see which lines of the anchored files the checks execute)
+ASAN_FLAGS=${VERIF_ASAN_FLAGS:-"-fsanitize=address,undefined -fno-sanitize-recover=undefined"}
+TSAN_FLAGS=${VERIF_TSAN_FLAGS:-"-fsanitize=thread"}
 
 case "$mode" in
   setup)
